@@ -140,7 +140,7 @@ def decodeBody (b32 down : Codec) (code : Nat) (data : List Nat) : Dec Resp :=
   else .panic
 
 def hasResponse (code : Nat) : Bool :=
-  match SA.Gen.commandTable.find? (·.1 == code) with
+  match SA.Gen.C09.commandTable.find? (·.1 == code) with
   | some (_, _, _, r) => r
   | none => false
 
@@ -150,7 +150,7 @@ def decodeResp (b32 down : Codec) (data : List Nat) : Dec Resp :=
   match data with
   | [] => .panic
   | c :: _ =>
-    match SA.Gen.commandTable.find? (fun e => c == e.1 || lower c == e.1) with
+    match SA.Gen.C09.commandTable.find? (fun e => c == e.1 || lower c == e.1) with
     | none => .err
     | some (code, _, _, hasR) => if hasR then decodeBody b32 down code data else .panic
 
@@ -172,14 +172,14 @@ inductive RR
   | unknown
   deriving DecidableEq, Repr
 
-def b32Char (n : Nat) : Nat := SA.Gen.c09cb32.getD (n % 32) 0
+def b32Char (n : Nat) : Nat := SA.Gen.C09.c09cb32.getD (n % 32) 0
 
 /-- enc.Base32CharToInt: −1 for a foreign character -/
 def b32CharToInt (c : Nat) : Int :=
-  match indexOf SA.Gen.c09cb32 c with
+  match indexOf SA.Gen.C09.c09cb32 c with
   | some i => i
   | none =>
-    match indexOf SA.Gen.c09cb32 (lower c) with
+    match indexOf SA.Gen.C09.c09cb32 (lower c) with
     | some i => if 65 ≤ c ∧ c ≤ 90 then i else -1
     | none => -1
 
@@ -213,7 +213,7 @@ def txtStrings (chunk perRec : Nat) : Nat → Nat → Nat → List Nat → List 
       let pre := if cur.isEmpty then orderTag order else []
       let order' := if cur.isEmpty then order + 1 else order
       let s := pre ++ data.take chunk
-      let s := if SA.Gen.wrapTxtEscapes then escapeBackslashes s else s
+      let s := if SA.Gen.C09.wrapTxtEscapes then escapeBackslashes s else s
       let cur' := s :: cur
       if cur'.length = perRec then txtStrings chunk perRec fuel order' 0 (data.drop chunk) (cur'.reverse :: recs) []
       else txtStrings chunk perRec fuel order' 0 (data.drop chunk) recs cur'
@@ -225,12 +225,12 @@ def wrap (t : RRType) (domain data : List Nat) : Option (List RR) :=
   let maxLen := (longestDataString domain.length).toNat
   match t with
   | .a =>
-    let recs := chunkRecs SA.Gen.wrapChunkA (fun o => [o % 256]) n 1 data
+    let recs := chunkRecs SA.Gen.C09.wrapChunkA (fun o => [o % 256]) n 1 data
     if recs.length > 255 then none else some (recs.map .a)
-  | .aaaa => some ((chunkRecs SA.Gen.wrapChunkAAAA (fun o => le16 o) n 1 data).map .aaaa)
-  | .null => some ((chunkRecs SA.Gen.wrapChunkNull (fun o => le16 o) n 1 data).map .null)
-  | .priv => some ((chunkRecs SA.Gen.wrapChunkPrivate (fun o => le16 o) n 1 data).map .priv)
-  | .txt => some ((txtStrings SA.Gen.wrapChunkTxt SA.Gen.wrapTxtStrings n 0 0 data [] []).map .txt)
+  | .aaaa => some ((chunkRecs SA.Gen.C09.wrapChunkAAAA (fun o => le16 o) n 1 data).map .aaaa)
+  | .null => some ((chunkRecs SA.Gen.C09.wrapChunkNull (fun o => le16 o) n 1 data).map .null)
+  | .priv => some ((chunkRecs SA.Gen.C09.wrapChunkPrivate (fun o => le16 o) n 1 data).map .priv)
+  | .txt => some ((txtStrings SA.Gen.C09.wrapChunkTxt SA.Gen.C09.wrapTxtStrings n 0 0 data [] []).map .txt)
   | .cname =>
     if maxLen = 0 then none else
     nameRecs maxLen (fun o c => (prepareHostname (orderTag o ++ c) domain).map .cname) n 1 data
@@ -248,7 +248,7 @@ def rrOverWire : RR → Except WireErr RR
   | .null d => if d.length ≤ 65535 then .ok (.null d) else .error .pack
   | .priv d =>
     if d.length > 65535 then .error .pack
-    else if SA.Gen.queryTypePrivate = SA.Gen.typeSocketAce then .ok (.priv d) else .ok .unknown
+    else if SA.Gen.C09.queryTypePrivate = SA.Gen.C09.typeSocketAce then .ok (.priv d) else .ok .unknown
   | .txt ss =>
     let ws := ss.map txtToWire
     if ws.any (fun w => w.length > 255) then .error .pack
@@ -304,7 +304,7 @@ def stripNameTail (name : List Nat) (domainLen : Nat) : Option (List Nat) :=
   if name.length < domainLen + 2 then none else some (name.take (name.length - domainLen - 2))
 
 def nameData (s : List Nat) : List Nat :=
-  if SA.Gen.unwrapUnescapesNames then unescapePresentation true s else undotify s
+  if SA.Gen.C09.unwrapUnescapesNames then unescapePresentation true s else undotify s
 
 /-- what UnwrapDnsResponse appends for one record; none = slice panic -/
 def unwrapOne (domainLen : Nat) : RR → Option (List Nat)
@@ -312,7 +312,7 @@ def unwrapOne (domainLen : Nat) : RR → Option (List Nat)
   | .priv d => if d.length < 2 then none else some (d.drop 2)
   | .txt ss =>
     let j := ss.flatten
-    let j := if SA.Gen.unwrapUnescapesTxt then unescapePresentation false j else j
+    let j := if SA.Gen.C09.unwrapUnescapesTxt then unescapePresentation false j else j
     if j.length < 2 then none else some (j.drop 2)
   | .mx _ n => (stripNameTail n domainLen).map nameData
   | .srv _ n => (stripNameTail n domainLen).map nameData
